@@ -12,10 +12,10 @@ TEXTS = [("plain", "see http://x.fr/a", " end"), ("punct", "(https://x.fr/a?b=1"
          ("markdown-url-text", "[http://a.fr/", "](http://b.fr/c) z"), ("markdown-truncated", "x [http://a.fr](", ""), ("quotes", "«http://x.fr/p", "»,"),
          ("adjacent", "http://a.fr/x", "http://b.fr/y"), ("free", "", ""), ("scheme-hole", "go to ", "://x.fr/a."), ("bracket-start", "[", "http://x.fr](y"),
          ("tld-tail", "see http://a.", " ok"), ("markdown-bare-target", "[http://a.fr/](http://b.fr", ") z"),
-         ("markdown-text-host", "[http://a", "](b@c.fr) z")]
+         ("markdown-text-host", "[http://a", "](b@c.fr) z"), ("tld-tail-3", "see http://aa.bb.", " ok")]
 BOUNDS = {
     "quick": "is_url: 12 url skeletons x hole strings of length 0..2 over all code points x ALL 16 option combinations (symbolic booleans); outer whitespace of length 0..1 on each side; "
-             "urls_from_text: 13 text skeletons (plain, punctuated, markdown complete / truncated / url-as-text / target without path, typographic quotes, adjacent urls, hole at the end of the host, free) x holes of length 0..2",
+             "urls_from_text: 14 text skeletons (plain, punctuated, markdown complete / truncated / url-as-text / target without path, typographic quotes, adjacent urls, hole at the end of the host, free) x holes of length 0..2",
     "thorough": "holes of length 0..3",
 }
 STUBS = ["the five live URL regexes run through the sre-tree matcher (bounded strings; no length-unbounded regex lemma was built)", "live TLD set as a disjunction"]
